@@ -165,6 +165,24 @@ def pool_factory(kind, h=None):
     return e
 
 
+class Provider:
+    """a callable OBJECT for executor instructions `(Provider(key), (), {})` that hands out one shared executor; it is
+    pickled by value (its class by reference), so a copy that comes back is a different, unequal object"""
+
+    def __init__(self, key):
+        self.key = key
+
+    def __call__(self):
+        return make_executor(self.key)
+
+
+@as_function_node("o", validate_output_labels=False)
+def Payload(kind="bytes", text="c1"):
+    """a node whose legal output is `bytes` (or str / tuple for comparison)"""
+    r = text.encode() if kind == "bytes" else (text if kind == "str" else (text, text))
+    return r
+
+
 def make_executor(key):
     """the callable of an instruction-tuple executor"""
     if key in REGISTRY:
